@@ -41,7 +41,7 @@ PROPS: Dict[str, Dict[str, Any]] = {
     "C03": {"monitor": "C03", "generators": [gen_h1.gen_c03, gen_h2.gen_h2_faults] + H1_GEN, "design": H1_DESIGN,
             "deviations": [_dev("DevDoubleLog", "AtMostOneAccess"), _dev("DevParked", "Released")]},
     "C05": {"monitor": "C05", "generators": [gen_h1.gen_c05, gen_h2.gen_h2_faults] + H1_GEN, "design": H1_DESIGN},
-    "C06": {"monitor": "C06", "generators": [gen_h1.gen_c06] + H1_GEN, "design": H1_DESIGN,
+    "C06": {"monitor": "C06", "generators": [gen_h1.gen_c06] + H1_GEN, "design": [dict(H1_DESIGN[0], coverage=True)] + H1_DESIGN[1:],
             "deviations": [_dev("DevDiscPutBlocks", "Released")]},
     "C07": {"monitor": "C07", "generators": [gen_h1.gen_c07, gen_h2.gen_h2_faults, sampled(gen_h1.gen_c06, 400)] + H1_GEN, "design": H1_DESIGN,
             "deviations": [_dev("DevParked", "Released"), _dev("DevIdleKeeps", "Released"),
@@ -76,10 +76,20 @@ PROPS["C08"] = {"monitor": "C08", "generators": [gen_h2.gen_release, gen_h2.gen_
                 "design": H2_DESIGN,
                 "deviations": [_h2dev("DevLowWater", "Bounded", "MC_H2Conn_grow.cfg"), _h2dev("DevCloseNoRelease", "NoStuckSend"),
                                _h2dev("DevResetNoRelease", "NoStuckSend")]}
+# (action coverage of the design instance is measured where the property is about that design: C06, C09)
 PROPS["C09"] = {"monitor": "C09", "generators": [gen_h2.gen_flow, gen_h2.gen_release, gen_h2.gen_h2_basic, from_tlc.gen_h2_from_spec],
-                "design": H2_DESIGN}
-PROPS["C10"] = {"monitor": "C10", "generators": [gen_ws.gen_c10]}
-PROPS["C11"] = {"monitor": "C11", "generators": [gen_ws.gen_c11]}
+                "design": [dict(H2_DESIGN[0], coverage="strict")] + H2_DESIGN[1:]}
+WS_DESIGN = [{"module": "MC_WSock", "cfg": "MC_WSock_quick.cfg", "coverage": "strict"}]
+
+
+def _wsdev(dev: str, expect: str) -> Dict[str, Any]:
+    return {"module": "MC_WSock", "cfg": "MC_WSock_quick.cfg", "dev": dev, "expect": expect}
+
+
+PROPS["C10"] = {"monitor": "C10", "generators": [gen_ws.gen_c10], "design": WS_DESIGN,
+                "deviations": [_wsdev("DevAfterClose", "NoCrash")]}
+PROPS["C11"] = {"monitor": "C11", "generators": [gen_ws.gen_c11], "design": WS_DESIGN,
+                "deviations": [_wsdev("DevCodeLost", "DisconnectCode"), _wsdev("DevConnectedEarly", "NoStrayFrames")]}
 PROPS["C12"] = {"monitor": "C12", "generators": [gen_asgi.gen_c12],
                 "design": [{"module": "Asgi", "cfg": "MC_Asgi.cfg"}]}
 PROPS["C13"] = {"monitor": "C13", "generators": [gen_proto.gen_c13]}
